@@ -334,6 +334,19 @@ func GhostLoad(p *int64) int64         { return atomic.LoadInt64(p) }
 // harness monitor p (and no other monitor).
 func YieldOn(p any) { runtime.Gosched() }
 
+// OthersDone reports whether every other goroutine of the program has finished (engine: exact;
+// natively: every goroutine started with symx.Go).
+func OthersDone() bool {
+	mu.Lock()
+	defer mu.Unlock()
+	for _, t := range threads {
+		if !t.done {
+			return false
+		}
+	}
+	return true
+}
+
 func Yield()                                             { runtime.Gosched() }
 func MutexHeld(m *sync.Mutex) bool                       { if m.TryLock() { m.Unlock(); return false }; return true }
 func RWMutexState(m *sync.RWMutex) (writer bool, readers int) {
